@@ -518,3 +518,22 @@ Proof.
   { apply lxor_is32; [apply crc_bits_is32|]; unfold is32; vm_compute; reflexivity. }
   unfold is32 in I. assert (E : 2 ^ 32 = 4294967296) by (vm_compute; reflexivity). rewrite E in I. lia.
 Qed.
+
+(* ------------------------------------------------------------------ the OTHER bit numbering
+   [burst_pattern] / [burst32b] above speak about positions in the order the CRC consumes the bits: byte by byte, and
+   inside a byte the LEAST significant bit first ([zbits]).  In the numbering usually drawn for a byte stream - most
+   significant bit of each byte first ([zbits_msb]) - "a window of at most 32 consecutive positions" is a different
+   set of patterns, and for that reading the statement is FALSE: the pattern 0a 1e e9 d5 e0 (set bits within 31
+   consecutive MSB-first positions; 39 positions apart in CRC order) is a multiple of the generator polynomial and
+   leaves every checksum unchanged.  What holds in ANY numbering: single-bit flips ([crc_bitflip]) and every
+   alteration confined to 4 consecutive bytes ([crc_4bytes]; this contains every MSB-first burst of at most 25 bits). *)
+Definition zbits_msb (d : list Z) : list bool := flat_map (fun b => rev (byte_bits (Z.to_N b))) d.
+
+Definition msb_d : list Z := [104; 101; 108; 108; 111; 32; 119; 111]%Z.         (* "hello wo" *)
+Definition msb_e : list Z := [0; 0x0a; 0x1e; 0xe9; 0xd5; 0xe0; 0; 0]%Z.
+
+Theorem burst_msb_order_refuted :
+  exists d e, bytes_ok d = true /\ bytes_ok e = true /\ length d = length e /\
+              burst32b (zbits_msb e) = true /\ burst32b (zbits e) = false /\
+              zxor d e <> d /\ crc32 (zxor d e) = crc32 d.
+Proof. exists msb_d, msb_e. vm_compute. repeat split; try reflexivity. discriminate. Qed.
